@@ -3,6 +3,7 @@ package annotations
 import (
 	"go/ast"
 	"go/token"
+	"go/types"
 	"regexp"
 	"strings"
 
@@ -511,6 +512,21 @@ func ExtractReceiverType(expr ast.Expr) string {
 	return ""
 }
 
+// importedPackage returns the package an import spec refers to (nil if unknown),
+// so that the import map records the imported package's declared name
+func importedPackage(current *types.Package, spec *ast.ImportSpec) *types.Package {
+	if spec == nil || spec.Path == nil {
+		return nil
+	}
+	path := strings.Trim(spec.Path.Value, `"`)
+	for _, imported := range current.Imports() {
+		if imported.Path() == path {
+			return imported
+		}
+	}
+	return nil
+}
+
 var matcher = ahocorasick.NewStringMatcher([]string{
 	"@implements",
 	"@constructor",
@@ -540,7 +556,7 @@ func ReadAllAnnotations(
 		// Build import map for this file
 		imports := &util.ImportMap{}
 		for _, imp := range file.Imports {
-			imports.Add(imp, pass.Pkg)
+			imports.Add(imp, importedPackage(pass.Pkg, imp))
 		}
 
 		for _, n := range file.Decls {
